@@ -121,6 +121,7 @@ struct Ref {
     int has_rc;  long rc;     /* expected return for RT_Z / RT_B / RT_P(index) */
     int plain;                /* success may also be a plain status code (ESNOTFND/ESNODIFF) with this value */
     int sign_only;            /* compare only the sign of out */
+    int tail_prior_or_zero;   /* behind the dn expected elements dest holds what it held before, or zeros (nulled slack): nothing else of the source */
 };
 
 extern Fn fntab[];
